@@ -358,7 +358,7 @@ def run(res, ctx):
     res.coverage.update({
         "evaluations": st["evaluations"],
         "distinct_nontrivial": st["distinct_nontrivial"],
-        "rule": "for seeded years of rates (an earlier run's cached year as the old file, the re-downloaded year as the new content, strings exactly as the implementation writes them): every named step boundary of the write path, and byte offsets of the content (quick: all offsets inside one row, the ends, 12 random; thorough: every offset of a 30-row year and 400 of a full year); the child process is aborted there by the verif_hooks crash hook, then the directory is listed and a fresh RateLoader answers look-ups of the dates around the cut. Non-trivial = the child was really aborted at the crash point, distinct by (old, new, crash point)",
+        "rule": "for seeded years of rates (an earlier run's cached year as the old file, the re-downloaded year as the new content, strings exactly as the implementation writes them): every named step boundary of the write path, and byte offsets of the content (quick: all offsets inside one row, the ends, 25 random; thorough: every offset of a 30-row year and 400 of a full year); the child process is aborted there by the verif_hooks crash hook, then the directory is listed and a fresh RateLoader answers look-ups of the dates around the cut. Non-trivial = the child was really aborted at the crash point, distinct by (old, new, crash point)",
         "samples": ctx["samples"],
         "input_distribution": {k: v for k, v in sorted(st.items())},
         "reader_validation": reader,
